@@ -333,6 +333,11 @@ static int opt_work (
 		}
 		p->basis = p2->basis;
 		p2->basis = 0;
+		if (p->basis)
+		{		/* the edge norms belong to the scaled matrix, not to p */
+			EGLPNUM_TYPENAME_EGlpNumFreeArray (p->basis->rownorms);
+			EGLPNUM_TYPENAME_EGlpNumFreeArray (p->basis->colnorms);
+		}
 		EGLPNUM_TYPENAME_QSfree_prob (p2);
 		p2 = 0;
 	}
